@@ -183,19 +183,51 @@ let dir_dump (id : string) (f : n list) (out : out_channel) =
     Printf.fprintf out "%s open OK\n" id;
     print_indexes id None idxs out
 
+(* the damage operations of harness/src/damage.rs, on byte lists *)
+let apply_damage (b : int list) (op : string) : int list =
+  let p = String.split_on_char ':' op in
+  let mapi_range pos len f = List.mapi (fun i x -> if i >= pos && i < pos + len then f (i - pos) x else x) b in
+  match p with
+  | ["none"] -> b
+  | ["flip"; pos; mask] -> mapi_range (int_of_string pos) 1 (fun _ x -> x lxor (int_of_string ("0x" ^ mask)))
+  | ["xor"; pos; hx] -> let d = Array.of_list (bytes_of_hex hx) in mapi_range (int_of_string pos) (Array.length d) (fun i x -> x lxor d.(i))
+  | ["zero"; pos; len] -> mapi_range (int_of_string pos) (int_of_string len) (fun _ _ -> 0)
+  | ["write"; pos; hx] -> let d = Array.of_list (bytes_of_hex hx) in mapi_range (int_of_string pos) (Array.length d) (fun i _ -> d.(i))
+  | ["trunc"; len] -> List.filteri (fun i _ -> i < int_of_string len) b
+  | "append" :: rest -> b @ payload (String.concat ":" rest)
+  | "replace" :: rest -> payload (String.concat ":" rest)
+  | _ -> failwith ("bad damage op " ^ op)
+
 let container_case (c : case) (out : out_channel) =
   let main = ref [] and fs = ref [] in
+  let files = ref [] in
   List.iter (fun l ->
     match l with
-    | ["main"; path] -> main := nbytes (read_file path)
-    | ["sibling"; name; path] ->
-      fs := (nbytes (List.init (String.length name) (fun i -> Char.code name.[i])), nbytes (read_file path)) :: !fs
+    | ["main"; path] -> files := ("", path) :: !files
+    | ["sibling"; name; path] -> files := (name, path) :: !files
     | _ -> ()) c.lines;
-  match container_open !main !fs with
-  | Err e -> Printf.fprintf out "%s open %s\n" c.id (show_res_err e)
-  | Ok ct ->
-    Printf.fprintf out "%s open OK\n" c.id;
-    Printf.fprintf out "%s packcount %s\n" c.id (string_of_n ct.ct_manifest.mf_mh.mh_count);
+  let dmg = List.filter_map (fun l -> match l with ["damage"; name; op] -> Some (name, op) | _ -> None) c.lines in
+  List.iter (fun (name, path) ->
+    let base = Filename.basename path in
+    if List.mem (base, "remove") dmg then () else
+    let b = read_file path in
+    let b = List.fold_left (fun b (n, op) -> if n = base then apply_damage b op else b) b dmg in
+    if name = "" then main := nbytes b
+    else fs := (nbytes (List.init (String.length name) (fun i -> Char.code name.[i])), nbytes b) :: !fs) !files;
+  if List.exists (fun l -> l = ["ranges"]) c.lines then begin
+    let pr name f = match file_ranges f with
+      | Err _ -> ()
+      | Ok rs -> List.iter (fun ((((pos, cp), cs), kb), cnt) ->
+          Printf.fprintf out "%s range %s %s %s %s %s %s\n" c.id name (string_of_n pos) (string_of_n cp) (string_of_n cs) (string_of_n kb) (string_of_n cnt)) rs in
+    List.iter (fun (name, path) -> pr (Filename.basename path) (nbytes (read_file path))) !files
+  end;
+  let dump id ct =
+    (* Container::new opens the directory pack (its two headers): a failure there fails the open *)
+    match container_dir_dump ct with
+    | Err e -> Printf.fprintf out "%s open %s\n" id (show_res_err e)
+    | Ok idxs ->
+    Printf.fprintf out "%s open OK\n" id;
+    Printf.fprintf out "%s packcount %s\n" id (string_of_n ct.ct_manifest.mf_mh.mh_count);
     let cf p ci =
       match get_content ct !fs p ci with
       | Err e -> show_res_err e
@@ -207,9 +239,15 @@ let container_case (c : case) (out : out_channel) =
          | CRaw (_, _), Some d -> show (ibytes d)
          | CComp (algo, _, _, _, _, len), _ -> Printf.sprintf "COMP:%s:%s" (string_of_n algo) (string_of_n len)
          | _, _ -> "?") in
-    (match container_dir_dump ct with
-     | Err e -> Printf.fprintf out "%s dir %s\n" c.id (show_res_err e)
-     | Ok idxs -> print_indexes c.id (Some cf) idxs out)
+    print_indexes id (Some cf) idxs out in
+  match container_open !main !fs with
+  | Err e ->
+    Printf.fprintf out "%s open %s\n" c.id (show_res_err e);
+    (* the manifest search walks a hash map: the other admissible order (manifest met first) *)
+    (match container_open_lenient !main !fs with
+     | Err _ -> ()
+     | Ok ct -> dump (c.id ^ " alt") ct)
+  | Ok ct -> dump c.id ct
 
 (* comparison of a decoded value with a probe value token (u<dec>, s<dec>, a:<payload>) *)
 let cmp_value (v : value res) (tok : string) : comparison option =
@@ -265,6 +303,61 @@ let dir_case (c : case) (out : out_channel) =
           | _ -> Printf.fprintf out "%s find %d NOINDEX\n" c.id fi))
     | _ -> ()) c.lines
 
+(* C07: event traces of the background decoder, one recognizer run per shared buffer *)
+let conc_case (c : case) (out : out_channel) =
+  let threads = pi c "threads" in
+  let bufs : (string, (int * label) list ref * int ref) Hashtbl.t = Hashtbl.create 64 in
+  let order = ref [] in
+  List.iter (fun l ->
+    match l with
+    | ["ev"; oid; kind; t; a; b] ->
+      let (evs, total) =
+        (try Hashtbl.find bufs oid with Not_found ->
+           let e = (ref [], ref (-1)) in Hashtbl.add bufs oid e; order := oid :: !order; e) in
+      let a = int_of_string a and b = int_of_string b and t = int_of_string t and kind = int_of_string kind in
+      let lab = match kind with
+        | 1 -> total := b; LChunk (n_of_int a)
+        | 2 -> LPublish (n_of_int a)
+        | 3 -> LFail (n_of_int a)
+        | 4 -> total := b; LWaitBegin (nat_of_int t, n_of_int a)
+        | 5 -> LWaitEnd (nat_of_int t, n_of_int a, n_of_int (b / 2), b mod 2 = 1)
+        | 6 -> LSlice (nat_of_int t, n_of_int a)
+        | k -> failwith ("bad event kind " ^ string_of_int k) in
+      evs := (kind, lab) :: !evs
+    | _ -> ()) c.lines;
+  List.iter (fun oid ->
+    let (evs, total) = Hashtbl.find bufs oid in
+    let labs = List.rev_map snd !evs in
+    let total_n = n_of_int !total in
+    let nfail = List.length (List.filter (fun (k, _) -> k = 3) !evs) in
+    let verdict =
+      if sv_accepts total_n (nat_of_int threads) labs then "accepted"
+      else match sv_first_reject total_n (ainit (nat_of_int threads)) labs N0 with
+        | Some k -> "rejected at " ^ string_of_n k
+        | None -> "rejected at end (a wait never returned)" in
+    Printf.fprintf out "%s buf %s total=%d events=%d fails=%d %s\n" c.id oid !total (List.length labs) nfail verdict)
+    (List.rev !order)
+
+(* C09: abstracted system-call trace of one creation *)
+let crash_case (c : case) (out : out_channel) =
+  let entry = ref 0 and paths = ref [] and ops = ref [] in
+  List.iter (fun l ->
+    match l with
+    | ["entry"; e] -> entry := int_of_string e
+    | "paths" :: ps -> paths := List.map int_of_string ps
+    | ["mktemp"; t] -> ops := MkTemp (nat_of_int (int_of_string t)) :: !ops
+    | ["write"; t; pos; len] -> ops := Write (nat_of_int (int_of_string t), n_of_string pos, n_of_string len) :: !ops
+    | ["persist"; t; p] -> ops := Persist (nat_of_int (int_of_string t), nat_of_int (int_of_string p)) :: !ops
+    | ["drop"; t] -> ops := Drop (nat_of_int (int_of_string t)) :: !ops
+    | _ -> ()) c.lines;
+  let tr = List.rev !ops in
+  let e = nat_of_int !entry in
+  Printf.fprintf out "%s accepts %b wf=%b entry_last=%b ops=%d\n" c.id (fs_accepts e tr) (wf_from [] [] tr) (entry_lastb e tr) (List.length tr);
+  let sts = crash_states tr (List.map nat_of_int !paths) in
+  let strs = List.map (fun v -> String.concat "" (List.map (fun b -> if b then "1" else "0") v)) sts in
+  let rec uniq acc = function [] -> List.rev acc | x :: r -> if List.mem x acc then uniq acc r else uniq (x :: acc) r in
+  Printf.fprintf out "%s states %s\n" c.id (String.concat "," (uniq [] strs))
+
 let () =
   let cases = parse_cases Sys.argv.(1) in
   let out = open_out Sys.argv.(2) in
@@ -276,6 +369,8 @@ let () =
       | "content" -> content_case c out
       | "dir" -> dir_case c out
       | "container" -> container_case c out
+      | "conc" -> conc_case c out
+      | "crash" -> crash_case c out
       | f -> failwith ("unknown family " ^ f)
     with e -> Printf.fprintf out "%s MODEL_EXN %s\n" c.id (Printexc.to_string e)) cases;
   close_out out
